@@ -13,6 +13,7 @@
 package main
 
 import (
+	"hash/crc32"
 	"bufio"
 	"bytes"
 	"context"
@@ -61,6 +62,39 @@ type c13Case struct {
 	Repo     string `json:"repo"`     // sites
 	Method   string `json:"method"`   // http raw: request method (default POST)
 	Late     bool   `json:"late"`     // MaxRequestLength is set only after Bind (the server is bound with the default limit)
+	// Trail (tcp/unix raw): in the same write the oversized frame is followed by one more frame whose BODY holds,
+	// at every offset a reader that consumes the refused body in 512..8192-byte gulps could stop at, a complete small
+	// valid request frame.  Nothing of what follows a refused frame may ever be executed as a request of its own.
+	Trail bool `json:"trail"`
+}
+
+// sockHeader: the 12-byte stream frame header (independent of the library: hash/crc32)
+func sockHeader(length int, index uint32) []byte {
+	h := make([]byte, 12)
+	h[4], h[5], h[6], h[7] = byte(length>>24)|0x80, byte(length>>16), byte(length>>8), byte(length)
+	h[8], h[9], h[10], h[11] = byte(index>>24), byte(index>>16), byte(index>>8), byte(index)
+	crc := crc32.ChecksumIEEE(h[4:])
+	h[0], h[1], h[2], h[3] = byte(crc>>24), byte(crc>>16), byte(crc>>8), byte(crc)
+	return h
+}
+
+// trailFor: a follower frame for an oversized body of length l
+func trailFor(l int) []byte {
+	inner, _, _, _ := makeBody(24)
+	f2 := append(sockHeader(len(inner), 9), inner...)
+	body := make([]byte, 3*8192)
+	for i := range body {
+		body[i] = '.'
+	}
+	for _, gulp := range []int{512, 1024, 2048, 4096, 8192} {
+		d := (gulp - l%gulp) % gulp // bytes of the follower swallowed when the refused body is consumed in gulps
+		for _, off := range []int{d, d + gulp} {
+			if off >= 12 && off-12+len(f2) <= len(body) {
+				copy(body[off-12:], f2)
+			}
+		}
+	}
+	return append(sockHeader(len(body), 8), body...)
 }
 
 type site struct {
@@ -449,7 +483,11 @@ func opRawStream(c *c13Case, o *c13Obs) {
 	if c.Decl == "split" {
 		pieces = 4
 	}
-	werr := writeAll(conn, append(unhex(c.Hdr), body...), pieces)
+	out := append(unhex(c.Hdr), body...)
+	if c.Trail {
+		out = append(out, trailFor(len(body))...)
+	}
+	werr := writeAll(conn, out, pieces)
 	if werr != nil {
 		// the server may legitimately have hung up while a large surplus was still being written
 		o.Msg = "write: " + werr.Error()
